@@ -336,3 +336,44 @@ impl Default for TokenBalance {
 gmsol_utils::fixed_map!(TokenBalances, Pubkey, to_bytes, TokenBalance, MAX_TOKENS, 4);
 
 gmsol_utils::flags!(GtBankFlags, MAX_GT_BANK_FLAGS, u8);
+
+/// Verification hooks (compiled only with `--cfg gmsol_verif`): thin wrappers of crate-private methods.
+#[cfg(gmsol_verif)]
+pub mod verif {
+    use super::*;
+
+    /// See [`GtBank::try_init`].
+    pub fn try_init(
+        bank: &mut GtBank,
+        bump: u8,
+        treasury_vault_config: Pubkey,
+        gt_exchange_vault: Pubkey,
+    ) -> Result<()> {
+        bank.try_init(bump, treasury_vault_config, gt_exchange_vault)
+    }
+
+    /// See [`GtBank::confirm_unchecked`].
+    pub fn confirm_unchecked(bank: &mut GtBank, gt_amount: u64) -> Result<()> {
+        bank.confirm_unchecked(gt_amount)
+    }
+
+    /// See [`GtBank::record_transferred_in`].
+    pub fn record_transferred_in(bank: &mut GtBank, token: &Pubkey, amount: u64) -> Result<()> {
+        bank.record_transferred_in(token, amount)
+    }
+
+    /// See [`GtBank::record_transferred_out`].
+    pub fn record_transferred_out(bank: &mut GtBank, token: &Pubkey, amount: u64) -> Result<()> {
+        bank.record_transferred_out(token, amount)
+    }
+
+    /// See [`GtBank::record_claimed`].
+    pub fn record_claimed(bank: &mut GtBank, gt_amount: u64) -> Result<()> {
+        bank.record_claimed(gt_amount)
+    }
+
+    /// See [`GtBank::remaining_confirmed_gt_amount`].
+    pub fn remaining_confirmed_gt_amount(bank: &GtBank) -> u64 {
+        bank.remaining_confirmed_gt_amount()
+    }
+}
